@@ -1,14 +1,16 @@
 SPECIFICATION Spec
 CONSTANTS
-  N = 4
+  N = 3
   NSig = 2
-  MaxOps = 8
+  MaxOps = 7
   DeepLock = TRUE
-  BadSig = 0
+  BadSig = 2
   UnlockOnFail = TRUE
   MixinsUpdate = TRUE
 VIEW view
 INVARIANT UsedConsistent
 INVARIANT RefusalJustified
+INVARIANT LockJustified
+INVARIANT BuiltIsBuildable
 PROPERTY ParentsUntouched
 CHECK_DEADLOCK FALSE
